@@ -29,8 +29,9 @@ RULES = {
     "C01.6": "no entry is skipped because the batch went on after a budget stop (= C03.4): once the parser has given up an entry for the byte budget, nothing more is pushed in that "
              "call",
     "C01.7": "a reader leaves a sealed block only at its end: every step to the next block of the chain (cur_block_idx := idx + 1 in read_next, the planner's chain index += 1 in "
-             "batch_read_for_topic) is taken on the true edge of `offset >= block.used`, where offset is the cursor's own offset (or the planner's copy of it) - or, in a consuming "
-             "read_next, that offset plus the size of the entry just read and returned. A looser test (`offset + header >= used`, a planned end of range) steps over entries that "
+             "batch_read_for_topic) is taken on an edge that establishes `offset >= block.used`, where offset is the cursor's own offset (or the planner's copy of it), in a consuming "
+             "read_next that offset plus the size of the entry just read and returned, or - in the planner - the end of the range it has just planned (a planner that steps on "
+             "after a range that stops short of the block's end goes on to plan the next block or the tail, whose entries are then delivered ahead of the rest of this block). A looser test (`offset + header >= used`, a planned end of range) steps over entries that "
              "were never delivered; an equivalent test inside a helper is accepted when the helper returns exactly that comparison of its arguments",
 }
 
@@ -438,17 +439,47 @@ def check_block_left_at_end(ctx, facts):
                 if kind == "assign" and node["rv"]["k"] in ("use", "cast"):
                     e = strip_refs(expr(b, node["rv"]["op"]))
                     if e[0] == "Add" and fmtfeat.const_eval(e[2]) == 1 and show(strip_refs(e[1]), 4) == b.local_name(l):
-                        # only the step taken because the block is declared exhausted (under the true edge of a test
-                        # about the block); the step after a range of the block has been planned is bookkeeping
-                        decl = False
-                        for T2 in all_tests(b):
-                            if T2.kind == "cmp" and b.edge_guards(T2.true_edge, site.bb) and ".used" in (show(strip_refs(expr(b, T2.a)), 6) + show(strip_refs(expr(b, T2.b)), 6)):
-                                decl = True
-                            if T2.kind == "call" and T2.site is not None and b.edge_guards(T2.true_edge, site.bb) and \
-                                    any("block::Block" in b.local_ty(op_local(a_)) for a_ in T2.site.node["args"] if op_local(a_) is not None):
-                                decl = True
-                        if decl:
-                            steps.append(site)
+                        steps.append(site)
+        # (C) carriers: locals whose value is copied into a store of cur_block_idx / cur_block_offset (the batch
+        # path's `final_block_idx`, `final_block_offset`); an assignment `carrier := x + 1` is a step as well
+        def carriers(field):
+            cs, work = set(), []
+            for site, st in b.assigns():
+                p = st["place"]
+                if p["p"] and isinstance(p["p"][-1], dict) and p["p"][-1].get("n") == field and st["rv"]["k"] in ("use", "cast"):
+                    work.append(st["rv"]["op"])
+            # the commit may sit in a closure of this function: a captured variable `_1.<name>` stands for the
+            # parent's local of that name
+            names = set()
+            for c in facts.closures_of(b):
+                for site, st in c.assigns():
+                    p = st["place"]
+                    if p["p"] and isinstance(p["p"][-1], dict) and p["p"][-1].get("n") == field and st["rv"]["k"] in ("use", "cast"):
+                        m = re.match(r"^_1\.(\w+)$", show(strip_refs(expr(c, c.resolve_copy(st["rv"]["op"]))), 6))
+                        if m:
+                            names.add(m.group(1))
+            byname = [l for l in b.defs if b.local_name(l) in names]
+            work.extend({"k": "copy", "place": {"l": l, "p": []}} for l in byname)
+            while work:
+                o = b.resolve_copy(work.pop())
+                l = op_local(o)
+                if l is None or l in cs:
+                    continue
+                cs.add(l)
+                for s_, k_, n_ in b.defs.get(l, []):
+                    if k_ == "assign" and n_["rv"]["k"] in ("use", "cast"):
+                        work.append(n_["rv"]["op"])
+            return cs
+        idx_car = carriers("cur_block_idx")
+        off_car = carriers("cur_block_offset")
+        seen_steps = {(s_.bb, s_.idx) for s_ in steps}
+        for l in idx_car:
+            for site, kind, node in b.defs.get(l, []):
+                if kind == "assign" and node["rv"]["k"] in ("use", "cast") and (site.bb, site.idx) not in seen_steps:
+                    e = strip_refs(expr(b, node["rv"]["op"]))
+                    if e[0] == "Add" and fmtfeat.const_eval(e[2]) == 1:
+                        steps.append(site)
+                        seen_steps.add((site.bb, site.idx))
         for site in steps:
             n += 1
             ok = None
@@ -458,6 +489,13 @@ def check_block_left_at_end(ctx, facts):
                     continue
                 if _is_cursor_offset_load(b, off_op):
                     ok = "cursor offset >= block.used"
+                elif op_local(b.resolve_copy(off_op)) in off_car:
+                    # the position the parser has reached (the value it commits as the cursor offset)
+                    ok = "reached offset >= block.used"
+                elif fn_name == "batch_read_for_topic" and re.search(r"^min\(.*\.used.*\)$|^min\(.*, .*\.used\)$", show(strip_refs(expr(b, off_op)), 8)):
+                    # the planner: the range it has just planned ends at the end of the block (what the parser
+                    # then really delivers is governed by C01.6)
+                    ok = "the planned range reaches block.used"
                 else:
                     ea = strip_refs(expr(b, off_op))
                     if ea[0] == "Add" and guarded(b, site.bb, cp):
